@@ -57,6 +57,9 @@ func harnessOverlay() map[string][]byte {
 		}
 		return nil
 	})
+	for rel, b := range generatedOverlay() {
+		ov[filepath.Join(repoDir, rel)] = b
+	}
 	return ov
 }
 
